@@ -19,7 +19,7 @@ rm -f /tmp/seedtest.$$
 # Go demo (if any): fails with, passes without
 gd=$(ls "$out"/*_test.go 2>/dev/null | head -1)
 if [ -n "$gd" ]; then
-  pkgdir=src; grep -q '^package algo' "$gd" && pkgdir=src/algo; grep -q '^package util' "$gd" && pkgdir=src/util
+  pkgdir=src; grep -q '^package algo' "$gd" && pkgdir=src/algo; grep -q '^package util' "$gd" && pkgdir=src/util; grep -q '^package tui' "$gd" && pkgdir=src/tui
   cp "$gd" "$d/$pkgdir/zz_demo_test.go"
   ( cd "$d" && go test -vet=off -count=1 -run 'Demo|ZZ' ./$pkgdir >/dev/null 2>&1 ) && echo "SEED: demo PASSES with the change (unexpected)" || echo "SEED: demo fails with the change"
   ( cd "$d" && patch -R -p1 --quiet < "$out/patch.diff" && go test -vet=off -count=1 -run 'Demo|ZZ' ./$pkgdir >/dev/null 2>&1 ) && echo "SEED: demo passes without the change" || echo "SEED: demo FAILS without the change (unexpected)"
@@ -29,6 +29,6 @@ echo "SEED: running ./check $prop against the changed tree"
 VERIF_REPO="$d" /verif/check "$prop" "$@" > "$out/check-output.txt" 2>&1
 rc=$?
 grep -E "VIOLATION|-> |INCONCLUSIVE" "$out/check-output.txt" | cut -c1-220
-grep -v "rapid\] draw" "$out/check-output.txt" | cut -c1-400 | head -60 > "$out/check-output.short.txt"; mv "$out/check-output.short.txt" "$out/check-output.txt"
+{ grep -v "rapid\] draw" "$out/check-output.txt" | cut -c1-400 | head -60; echo "[...]"; grep -E "^VIOLATION|^INCONCLUSIVE| -> (HELD|VIOLATION|INCONCLUSIVE)" "$out/check-output.txt" | cut -c1-300; } > "$out/check-output.short.txt"; mv "$out/check-output.short.txt" "$out/check-output.txt"
 echo "SEED: check exit $rc"
 exit $rc
